@@ -26,7 +26,7 @@ RULE = (
     ">=1 file or non-empty doc AND the edit changes the id or targets an occupied destination; distinct by case hash."
 )
 CLASSES = [
-    "rekey", "project_named_by_relative_path", "rekey_collision", "rekey_into_empty_dir", "dest_doc_only", "type_only_rekey", "nested_edit", "list_edit",
+    "rekey", "project_named_by_relative_path", "handle_used_after_refused_rekey", "rekey_collision", "rekey_into_empty_dir", "dest_doc_only", "type_only_rekey", "nested_edit", "list_edit",
     "noop_edit", "move", "move_collision", "move_uninitialised", "clone", "clone_collision", "shallow_copy_follows",
     "pickle_independent", "deepcopy_independent", "update_sp_conflict", "prov_id", "prov_cursor", "prov_copy_lazy",
     "prov_copy_materialised",
